@@ -45,6 +45,8 @@ MAugment(A, B) == LET f(i, j) == IF j <= Cols(A) THEN A[i][j] ELSE B[i][j - Cols
 MKron(A, B) == LET rb == Rows(B)  cb == Cols(B)
                    f(i, j) == A[((i - 1) \div rb) + 1][((j - 1) \div cb) + 1] * B[((i - 1) % rb) + 1][((j - 1) % cb) + 1]
                IN Mk(Rows(A) * rb, Cols(A) * cb, f)
+RECURSIVE ProdOf(_, _)
+ProdOf(X, k) == IF k = 1 THEN X[1] ELSE MMul(ProdOf(X, k - 1), X[k])
 Ident(n) == LET f(i, j) == IF i = j THEN 1 ELSE 0 IN Mk(n, n, f)
 RECURSIVE MPow(_, _)
 MPow(A, n) == IF n = 0 THEN Ident(Rows(A)) ELSE MMul(MPow(A, n - 1), A)
@@ -84,15 +86,17 @@ IsSym(A) == Rows(A) = Cols(A) /\ A = Transpose(A)
 (****************************** operation table *******************************)
 \* receiver families
 DenseOps == {"Add", "Sub", "MulElem", "Mul", "Scale", "Apply", "Copy", "CloneFrom", "Stack", "Augment",
-             "Kronecker", "Pow", "RankOne", "Outer", "Product", "DivElem", "Inverse", "Solve", "SolveTo"}
+             "Kronecker", "Pow", "RankOne", "Outer", "Product", "Product1", "Product2", "Product4",
+             "DivElem", "Inverse", "Solve", "SolveTo"}
 VecOps   == {"MulVec", "AddVec", "SubVec", "MulElemVec", "AddScaledVec", "ScaleVec", "CopyVec", "CloneFromVec",
              "DivElemVec", "MulVecTo", "SolveVec", "SolveVecTo"}
 SymOps   == {"AddSym", "CopySym", "ScaleSym", "SymRankOne", "SymRankK", "SymOuterK", "RankTwo"}
 TriOps   == {"ScaleTri", "MulTri", "CopyTri", "InverseTri"}
-FuncOps  == {"Sum", "Max", "Min", "Trace", "Norm1", "NormInf", "Equal", "Dot", "Inner", "Row", "Col", "Det"}
-AllOps   == DenseOps \cup VecOps \cup SymOps \cup TriOps \cup FuncOps
+DiagOps  == {"DiagFrom"}
+FuncOps  == {"Sum", "Max", "Min", "Trace", "Norm1", "NormInf", "Equal", "EqualApprox", "Dot", "Inner", "Row", "Col", "Det"}
+AllOps   == DenseOps \cup VecOps \cup SymOps \cup TriOps \cup DiagOps \cup FuncOps
 Family(op) == CASE op \in DenseOps -> "Dense" [] op \in VecOps -> "Vec" [] op \in SymOps -> "Sym"
-                [] op \in TriOps -> "Tri" [] OTHER -> "Func"
+                [] op \in TriOps -> "Tri" [] op \in DiagOps -> "Diag" [] OTHER -> "Func"
 
 (* The demanded outcome.  X is the sequence of denoted operands (abstract matrices), R the receiver's
    old abstract value (<<>> for an empty receiver), n1, n2 the integer parameters of the call
@@ -117,8 +121,9 @@ Demand(op, X, R, n1, n2) ==
             ELSE Panic
       [] op \in {"Mul", "MulVec", "MulTri"} ->
             IF Cols(A) = Rows(B) /\ Fits(R, Rows(A), Cols(B)) THEN Ok(MMul(A, B)) ELSE Panic
-      [] op = "Product" ->
-            IF Cols(A) = Rows(B) /\ Cols(B) = Rows(C) /\ Fits(R, Rows(A), Cols(C)) THEN Ok(MMul(MMul(A, B), C)) ELSE Panic
+      [] op \in {"Product", "Product1", "Product2", "Product4"} ->      \* Product(factors ...) with 1 .. 4 factors
+            LET n == Len(X) IN
+            IF (\A k \in 1 .. n - 1 : Cols(X[k]) = Rows(X[k + 1])) /\ Fits(R, Rows(X[1]), Cols(X[n])) THEN Ok(ProdOf(X, n)) ELSE Panic
       [] op \in {"Scale", "ScaleVec", "ScaleSym", "ScaleTri"} ->
             IF Fits(R, Rows(A), Cols(A)) THEN Ok(MScale(n1, A)) ELSE Panic
       [] op = "AddScaledVec" ->
@@ -155,6 +160,9 @@ Demand(op, X, R, n1, n2) ==
       [] op \in {"Solve", "SolveVec", "SolveTo", "SolveVecTo"} ->   \* the X with op(A) X = B, A unimodular
             LET T == IF n1 = 1 THEN Transpose(A) ELSE A IN
             IF Rows(A) = Cols(A) /\ Rows(B) = Rows(A) /\ Fits(R, Rows(A), Cols(B)) THEN Ok(MMul(InvUni(T), B)) ELSE Panic
+      [] op = "DiagFrom" ->     \* the receiver must be min(r, c) long or empty
+            LET n == Min2(Rows(A), Cols(A))  f(i, j) == IF i = j THEN A[i][i] ELSE 0 IN
+            IF Fits(R, n, n) THEN Ok(Mk(n, n, f)) ELSE Panic
       [] op = "Det" -> IF Rows(A) = Cols(A) THEN Ok(Scalar(DetOf(A))) ELSE Panic
       [] op = "Sum" -> Ok(Scalar(SSum(A)))
       [] op = "Max" -> Ok(Scalar(SMax(A)))
@@ -163,6 +171,10 @@ Demand(op, X, R, n1, n2) ==
       [] op = "Norm1" -> Ok(Scalar(SNorm1(A)))
       [] op = "NormInf" -> Ok(Scalar(SNormInf(A)))
       [] op = "Equal" -> Ok(Scalar(BEqual(A, B)))
+      \* EqualApprox(a, b, eps): same size and all elements equal within the tolerance eps.  n1 \div 2 = 0: eps = 1/128
+      \* (integer elements of magnitude < 128 are within that tolerance, absolute or relative, only if equal);
+      \* n1 \div 2 = 1: eps = 100 (every pair of the small integers used is within it)
+      [] op = "EqualApprox" -> Ok(Scalar(IF ~SameDims(A, B) THEN 0 ELSE IF n1 \div 2 = 1 THEN 1 ELSE BEqual(A, B)))
       [] op = "Dot" -> IF Rows(A) = Rows(B) THEN Ok(Scalar(SDot(A, B))) ELSE Panic
       [] op = "Inner" -> IF Rows(A) = Rows(B) /\ Cols(B) = Rows(C) THEN Ok(Scalar(SInner(A, B, C))) ELSE Panic
       [] op = "Row" -> IF n1 < Rows(A) THEN Ok(<<A[n1 + 1]>>) ELSE Panic
@@ -172,7 +184,8 @@ Demand(op, X, R, n1, n2) ==
 KindSeq == <<"Dense", "DenseView", "Basic", "RawDense", "Sym", "SymView", "BasicSym", "RawSym",
              "TriU", "TriUView", "BasicTriU", "RawTriU", "TriL", "TriLView", "BasicTriL", "RawTriL",
              "Band", "BasicBand", "Vec", "VecInc", "RowOfDense", "BasicVec", "RawVec",
-             "SymBand", "TriBandU", "TriBandL", "Diag", "DiagOfDense", "Tridiag", "Chol">>
+             "SymBand", "TriBandU", "TriBandL", "Diag", "DiagOfDense", "Tridiag", "Chol",
+             "BandS", "SymBandS", "TriBandUS", "TriBandLS", "TridiagS">>
 TwSeq == <<"N", "T", "TTri", "TBand", "TTriBand", "TVec">>
 Idx(seq, x) == CHOOSE i \in 1 .. Len(seq) : seq[i] = x
 ASSUME {KindSeq[i] : i \in 1 .. Len(KindSeq)} = AllKinds
@@ -185,6 +198,8 @@ Params(kind, r, c) ==
       [] kind = "Band" -> {pq \in (0 .. Min2(r - 1, 2)) \X (0 .. Min2(c - 1, 2)) : Wide \/ pq[1] + pq[2] <= 2}
       [] kind = "BasicBand" -> {<<Min2(r - 1, 1), Min2(c - 1, 2)>>}
       [] kind \in {"SymBand", "TriBandU", "TriBandL"} -> {<<k, 0>> : k \in (IF Wide THEN 0 .. r - 1 ELSE {Min2(r - 1, 1), r - 1})}
+      [] kind = "BandS" -> {<<Min2(r - 1, 1 + (Seed % 2)), Min2(c - 1, 1)>>}
+      [] kind \in {"SymBandS", "TriBandUS", "TriBandLS"} -> {<<Min2(r - 1, 1 + (Seed % 2)), 0>>}
       [] kind = "DiagOfDense" -> IF Wide THEN {<<0, 0>>, <<0, 2>>} ELSE {<<0, o - 1>>}
       [] kind = "VecInc" -> IF Wide THEN {<<0, 2>>, <<2, 3>>} ELSE {<<o - 1, 2 + (Seed % 3)>>}
       [] kind = "RowOfDense" -> IF Wide THEN {<<0, 1>>, <<1, 3>>} ELSE {<<o - 1, 2>>}
@@ -198,10 +213,10 @@ BaseReps(r, c) ==
 MatReps(r, c) == {x \in BaseReps(r, c) : x.tw = "N"} \cup {x \in BaseReps(c, r) : x.tw # "N"}
 \* operand positions typed by a narrower Go interface
 VecReps(n) == {x \in MatReps(n, 1) : x.kind \in VecKinds /\ x.tw = "N"}
-SymIface == SymKinds \cup {"SymBand", "Diag", "DiagOfDense", "Chol"}
+SymIface == SymKinds \cup SymBandKinds \cup {"Diag", "DiagOfDense", "Chol"}
 SymReps(n) == {x \in MatReps(n, n) : x.kind \in SymIface /\ x.tw = "N"}
-UpperKinds == TriUKinds \cup {"TriBandU"}
-LowerKinds == TriLKinds \cup {"TriBandL"}
+UpperKinds == TriUKinds \cup TriBandUKinds
+LowerKinds == TriLKinds \cup TriBandLKinds
 TriIface == UpperKinds \cup LowerKinds
 \* triangular operands; Diag / DiagOfDense report Upper, every transpose wrapper flips the triangle
 TriReps(n) == {x \in MatReps(n, n) : (x.kind \in TriIface \cup {"Diag", "DiagOfDense"}) /\ x.tw \in {"N", "TTri", "TTriBand"}}
@@ -212,9 +227,9 @@ FullReps(r, c) == {x \in MatReps(r, c) : x.kind # "Chol" /\ \A i \in 1 .. x.r, j
 \* representations that can hold a unit triangular matrix
 UnitReps(n) == {x \in MatReps(n, n) : x.kind \notin SymmetricStorage \cup {"Chol"}}
 \* concrete types with MulVecTo / SolveTo / SolveVecTo methods (called on the value itself, no wrapper)
-MulVecToReps(r, c) == {x \in MatReps(r, c) : x.tw = "N" /\ x.kind \in {"Band", "SymBand", "Tridiag"}}
-SolveToReps(n) == {x \in MatReps(n, n) : x.tw = "N" /\ x.kind \in {"TriU", "TriL", "TriUView", "TriLView", "TriBandU", "TriBandL", "Tridiag"}}
-SolveVecToReps(n) == {x \in SolveToReps(n) : x.kind \in {"TriBandU", "TriBandL", "Tridiag"}}
+MulVecToReps(r, c) == {x \in MatReps(r, c) : x.tw = "N" /\ x.kind \in {"Band", "BandS"} \cup SymBandKinds \cup TridiagKinds}
+SolveToReps(n) == {x \in MatReps(n, n) : x.tw = "N" /\ x.kind \in {"TriU", "TriL", "TriUView", "TriLView"} \cup TriBandKinds \cup TridiagKinds}
+SolveVecToReps(n) == {x \in SolveToReps(n) : x.kind \in TriBandKinds \cup TridiagKinds}
 
 H(x) == Idx(KindSeq, x.kind) * 7 + Idx(TwSeq, x.tw) * 17 + x.r * 3 + x.c * 5 + x.p * 11 + x.q * 13
 \* a second hash, independent of the sampling hash, for per-case choices (receiver triangle, receiver shape of Copy)
@@ -222,6 +237,7 @@ H2(x) == Idx(KindSeq, x.kind) * 5 + Idx(TwSeq, x.tw) * 3 + x.r * 7 + x.c * 11 + 
 \* the generator works on pairs <<representation, hash>> so that sampling costs integer arithmetic only
 Hd(S) == {<<x, H(x)>> : x \in S}
 HS(ha) == ha[1][2] * 3 + (IF Len(ha) >= 2 THEN ha[2][2] * 5 ELSE 0) + (IF Len(ha) >= 3 THEN ha[3][2] * 7 ELSE 0)
+          + (IF Len(ha) >= 4 THEN ha[4][2] * 11 ELSE 0)
 Strip(ha) == [k \in 1 .. Len(ha) |-> ha[k][1]]
 
 (********************************** receivers **********************************)
@@ -235,11 +251,13 @@ RecvRep(fam, st, r, c, upper) ==
            [] fam = "Sym" -> IF st = "sized" THEN Rep("Sym", r, r, 0, 0, "N") ELSE Rep("SymView", r, r, 1, 0, "N")
            [] fam = "Tri" -> IF st = "sized" THEN Rep(IF upper THEN "TriU" ELSE "TriL", r, r, 0, 0, "N")
                              ELSE Rep(IF upper THEN "TriUView" ELSE "TriLView", r, r, 1, 0, "N")
+           [] fam = "Diag" -> IF st = "sized" THEN Rep("Diag", r, r, 0, 0, "N") ELSE Rep("DiagOfDense", r, r, 0, 1, "N")
 \* slots of the receiver's own window (a rectangle of its parent); everything else is the frame
 WindowSlots(rep) ==
     CASE rep.kind \in {"DenseView", "VecInc"} -> {Slot(rep, i, j) : i \in 1 .. rep.r, j \in 1 .. rep.c}
       [] rep.kind \in {"SymView", "TriUView", "TriLView"} ->
             {(i - 1 + rep.p) * (rep.r + rep.p + 1) + j + rep.p : i \in 1 .. rep.r, j \in 1 .. rep.r}
+      [] rep.kind = "DiagOfDense" -> {Slot(rep, i, i) : i \in 1 .. rep.r}    \* a diagonal view owns its diagonal only
       [] OTHER -> 1 .. StoreLen(rep)
 
 (************************************ cases ************************************)
@@ -275,7 +293,7 @@ MM(S) == UNION {Hd(MatReps(x[1][1], x[1][2])) \X Hd(MatReps(x[2][1], x[2][2])) :
 NK == N1 \X N1
 MismCasesOf(op) ==
     LET r(a) == D1(a[1])  c(a) == D2(a[1])  u(a) == TRUE  rv(a) == D1(a[1])  c1(a) == 1 IN
-    CASE op \in {"Add", "Sub", "MulElem", "Equal"} -> With(op, MM({x \in SP : x[1] # x[2]}), {0}, r, c, u)
+    CASE op \in {"Add", "Sub", "MulElem", "Equal", "EqualApprox"} -> With(op, MM({x \in SP : x[1] # x[2]}), {0}, r, c, u)
       [] op = "Mul" -> With(op, MM({x \in SP : x[2][1] # x[1][2]}), {0}, r, c, u)
       [] op = "Stack" -> With(op, MM({x \in SP : x[2][2] # x[1][2]}), {0}, r, c, u)
       [] op = "Augment" -> With(op, MM({x \in SP : x[2][1] # x[1][1]}), {0}, r, c, u)
@@ -332,6 +350,18 @@ NormalCasesOf(op) ==
             LET r(a) == D1(a[1])  c(a) == D2(a[3])  u(a) == TRUE
                 S == 1 .. Min2(MaxN, 2) IN
             With(op, UNION {Hd(MatReps(i, k)) \X Hd(MatReps(k, l)) \X Hd(MatReps(l, j)) : i \in S, j \in S, k \in {MaxN}, l \in S}, {0}, r, c, u)
+      [] op = "Product1" ->
+            LET r(a) == D1(a[1])  c(a) == D2(a[1])  u(a) == TRUE IN
+            With(op, UNION {{<<x>> : x \in Hd(MatReps(i, j))} : i \in N1, j \in N1}, {0}, r, c, u)
+      [] op = "Product2" ->
+            LET r(a) == D1(a[1])  c(a) == D2(a[2])  u(a) == TRUE
+                S == 1 .. Min2(MaxN, 2) IN
+            With(op, UNION {Hd(MatReps(i, k)) \X Hd(MatReps(k, j)) : i \in S, j \in S, k \in N1}, {0}, r, c, u)
+      [] op = "Product4" ->     \* four factors from a reduced set of representations, three dimension chains
+            LET r(a) == D1(a[1])  c(a) == D2(a[4])  u(a) == TRUE
+                Lite(i, j) == Hd({x \in MatReps(i, j) : x.kind \in {"Dense", "Basic", "Sym", "TriL", "Band", "Diag", "Vec", "Tridiag"} /\ x.tw \in {"N", "T"}})
+            IN With(op, UNION {Lite(d[1], d[2]) \X Lite(d[2], d[3]) \X Lite(d[3], d[4]) \X Lite(d[4], d[5]) :
+                                 d \in {<<2, 1, 2, 2, 1>>, <<1, 2, 2, 1, 2>>, <<2, 2, 2, 2, 2>>}}, {0}, r, c, u)
       [] op = "MulVec" ->
             LET r(a) == D1(a[1])  c(a) == 1  u(a) == TRUE IN
             With(op, UNION {Hd(MatReps(i, j)) \X Hd(VecReps(j)) : i \in N1, j \in N1}, {0}, r, c, u)
@@ -380,6 +410,9 @@ NormalCasesOf(op) ==
       [] op = "CopyTri" ->  \* TriDense.Copy(a Matrix): the receiver's triangle of a is copied
             LET r(a) == Max2(1, D1(a[1]) - 1 + (H2(a[1]) % 3))  c(a) == r(a)  u(a) == ((H2(a[1]) \div 9) % 2) = 0 IN
             With(op, UNION {{<<x>> : x \in Hd(MatReps(i, j))} : i \in N1, j \in N1}, {0}, r, c, u)
+      [] op = "DiagFrom" ->
+            LET r(a) == Min2(D1(a[1]), D2(a[1]))  c(a) == r(a)  u(a) == TRUE IN
+            With(op, UNION {{<<x>> : x \in Hd(MatReps(i, j))} : i \in N1, j \in N1}, {0}, r, c, u)
       [] op = "DivElem" ->
             LET r(a) == D1(a[1])  c(a) == D2(a[1])  u(a) == TRUE IN
             With(op, UNION {Hd({x \in MatReps(i, j) : x.kind # "Chol"}) \X Hd(FullReps(i, j)) : i \in N1, j \in N1}, {0}, r, c, u)
@@ -421,6 +454,9 @@ NormalCasesOf(op) ==
       [] op = "Equal" ->
             LET r(a) == 0  c(a) == 0  u(a) == TRUE IN
             With(op, UNION {Hd(MatReps(i, j)) \X Hd(MatReps(i, j)) : i \in N1, j \in N1}, {0, 1}, r, c, u)
+      [] op = "EqualApprox" ->
+            LET r(a) == 0  c(a) == 0  u(a) == TRUE IN
+            With(op, UNION {Hd(MatReps(i, j)) \X Hd(MatReps(i, j)) : i \in N1, j \in N1}, 0 .. 3, r, c, u)
       [] op = "Dot" ->
             LET r(a) == 0  c(a) == 0  u(a) == TRUE IN
             With(op, UNION {Hd(VecReps(i)) \X Hd(VecReps(i)) : i \in N1}, {0}, r, c, u)
@@ -436,7 +472,7 @@ Cases == UNION {IF Mism THEN MismCasesOf(op) ELSE NormalCasesOf(op) : op \in Ops
 (******************************* the printed case *******************************)
 \* data salt of operand position k.  Equal with n1 = 1 compares two operands holding the SAME formula
 \* data (so that the answer TRUE is exercised whenever both structures can hold it)
-SaltOf(d, k) == IF d.op = "Equal" /\ d.n1 = 1 THEN Seed ELSE Seed * 4 + k
+SaltOf(d, k) == IF d.op \in {"Equal", "EqualApprox"} /\ d.n1 % 2 = 1 THEN Seed ELSE Seed * 4 + k
 UnitOps == {"Inverse", "InverseTri", "Det", "Solve", "SolveVec", "SolveTo", "SolveVecTo"}
 UnitMode(x) == IF x.kind \in UpperKinds THEN "unitU" ELSE IF x.kind \in LowerKinds THEN "unitL"
                ELSE IF H(x) % 2 = 0 THEN "unitU" ELSE "unitL"
@@ -458,10 +494,12 @@ TriPart(M, upper) == LET f(i, j) == IF (upper /\ i <= j) \/ (~upper /\ i >= j) T
 WellTyped(d, e, X) ==
     /\ d.op \in {"DivElem", "DivElemVec"} => DivExact(X[1], X[2])
     /\ d.op \in UnitOps => Unimodular(X[1])
+    /\ d.op = "EqualApprox" => \A k \in 1 .. 2 : \A i \in 1 .. Rows(X[k]), j \in 1 .. Cols(X[k]) : AbsI(X[k][i][j]) < 128
     /\ e.panic \/ e.rows = <<>>
        \/ CASE Family(d.op) = "Sym" -> IsSym(e.rows)
          [] Family(d.op) = "Tri" -> e.rows = TriPart(e.rows, d.up)
          [] Family(d.op) = "Vec" -> Cols(e.rows) = 1
+         [] Family(d.op) = "Diag" -> \A i \in 1 .. Rows(e.rows), j \in 1 .. Cols(e.rows) : i # j => e.rows[i][j] = 0
          [] OTHER -> TRUE
 
 \* everything the harness needs, with every backing array evaluated once
